@@ -42,6 +42,10 @@ func chordsYAML(cs []userChord) []byte {
 		if c.Extends != "" {
 			b.WriteString("  extends: " + jq(c.Extends) + "\n")
 		}
+		// fields crd does not know (notes of the author) are none of its business
+		if h := len(c.Name) + len(c.Display) + len(c.Attrs); c.Name != "\x00" && h%5 == 0 {
+			b.WriteString("  description: \"a note by the author, not for crd\"\n  aliases: [x, y]\n")
+		}
 		if len(c.Attrs) > 0 {
 			b.WriteString("  attributes:\n")
 			for _, a := range c.Attrs {
@@ -60,6 +64,9 @@ func attrsYAML(as []userAttr) []byte {
 	for _, a := range as {
 		if a.Name != "\x00" {
 			b.WriteString("- name: " + jq(a.Name) + "\n  degree: " + jq(a.Degree) + "\n")
+			if len(a.Name)%4 == 0 {
+				b.WriteString("  since: \"v2\"\n")
+			}
 		} else {
 			b.WriteString("- degree: " + jq(a.Degree) + "\n")
 		}
@@ -733,7 +740,7 @@ func writeDictFiles(c *core.Ctx, r *rand.Rand, f forest) []string {
 	}
 	ac := split(len(f.attrs))
 	for j := 0; j+1 < len(ac); j++ {
-		args = append(args, "--attr", c.Scratch.File("attr.yml", preamble(attrsYAML(f.attrs[ac[j]:ac[j+1]]))))
+		args = append(args, "--attr", c.Scratch.File([]string{"attr.yml", "tensions$sharp.yml", "a ttr ~ ${x}.yml", "$HOME.yml"}[r.Intn(4)], preamble(attrsYAML(f.attrs[ac[j]:ac[j+1]]))))
 	}
 	// the dictionary is the union of all files: names and displays are unique among the user's chords, so
 	// neither the order of the definitions nor the order of the files matters (children before parents,
@@ -750,7 +757,7 @@ func writeDictFiles(c *core.Ctx, r *rand.Rand, f forest) []string {
 	cc := split(len(chords))
 	var files []string
 	for j := 0; j+1 < len(cc); j++ {
-		files = append(files, c.Scratch.File("chord.yml", preamble(chordsYAML(chords[cc[j]:cc[j+1]]))))
+		files = append(files, c.Scratch.File([]string{"chord.yml", "songs$book.yml", "ch ord ~ ${y}.yml", "$PATH.yml"}[r.Intn(4)], preamble(chordsYAML(chords[cc[j]:cc[j+1]]))))
 	}
 	if len(files) > 1 && r.Intn(3) == 0 {
 		args = append(args, "--chord", strings.Join(files, ","))
